@@ -56,6 +56,8 @@ type Service struct {
 	invokeManager    PluginManager
 	ioManager        PluginManager
 	handlers         map[string]Handler
+	// pluginLock: see Client.pluginLock
+	pluginLock sync.RWMutex
 	methodManager
 }
 
@@ -132,7 +134,13 @@ func (s *Service) handle(ctx context.Context, request []byte) (response []byte, 
 			response, err = nil, NewPanicError(p)
 		}
 	}()
-	return s.ioManager.Handler().(NextIOHandler)(ctx, request)
+	s.pluginLock.RLock()
+	ioHandler := s.ioManager.Handler().(NextIOHandler)
+	if serviceContext := GetServiceContext(ctx); serviceContext != nil {
+		serviceContext.invokeHandler = s.invokeManager.Handler().(NextInvokeHandler)
+	}
+	s.pluginLock.RUnlock()
+	return ioHandler(ctx, request)
 }
 
 // Process the reqeust and returns the response.
@@ -154,7 +162,11 @@ func (s *Service) Process(ctx context.Context, request []byte) ([]byte, error) {
 				err = NewPanicError("panic called with nil argument")
 			}
 		}()
-		results, e := s.invokeManager.Handler().(NextInvokeHandler)(ctx, name, args)
+		invokeHandler := serviceContext.invokeHandler
+		if invokeHandler == nil {
+			invokeHandler = s.invokeManager.Handler().(NextInvokeHandler)
+		}
+		results, e := invokeHandler(ctx, name, args)
 		panicking = false
 		if e != nil {
 			err = e
@@ -240,6 +252,8 @@ func (s *Service) Execute(ctx context.Context, name string, args []interface{}) 
 // Use plugin handlers.
 func (s *Service) Use(handler ...PluginHandler) *Service {
 	invokeHandlers, ioHandler, invokeObjects, ioObjects := separatePluginHandlers(handler)
+	s.pluginLock.Lock()
+	defer s.pluginLock.Unlock()
 	usePluginHandlers(s.invokeManager, invokeHandlers, invokeObjects)
 	usePluginHandlers(s.ioManager, ioHandler, ioObjects)
 	return s
@@ -248,6 +262,8 @@ func (s *Service) Use(handler ...PluginHandler) *Service {
 // Unuse plugin handlers.
 func (s *Service) Unuse(handler ...PluginHandler) *Service {
 	invokeHandlers, ioHandler, invokeObjects, ioObjects := separatePluginHandlers(handler)
+	s.pluginLock.Lock()
+	defer s.pluginLock.Unlock()
 	unusePluginHandlers(s.invokeManager, invokeHandlers, invokeObjects)
 	unusePluginHandlers(s.ioManager, ioHandler, ioObjects)
 	return s
